@@ -104,6 +104,10 @@ _METHODS = {
     (set, "issubset"),
 }
 _MODULE_FUNCS = {
+    ("itertools", "combinations"): lambda it, r: list(__import__("itertools").combinations(it, r)),
+    ("itertools", "product"): lambda *a: list(__import__("itertools").product(*a)),
+    ("itertools", "combinations_with_replacement"): lambda it, r: list(__import__("itertools").combinations_with_replacement(it, r)),
+    ("math", "isclose"): math.isclose,
     ("math", "radians"): math.radians,
     ("math", "degrees"): math.degrees,
     ("math", "sqrt"): math.sqrt,
@@ -167,6 +171,17 @@ class Folder:
             self._busy.discard(key)
 
     def _f_Attribute(self, n):
+        # attribute of a local abstract object supplied by the rule (e.g. a pseudo Enum member with .radius)
+        if isinstance(n.value, ast.Name) and n.value.id in self.local and hasattr(self.local[n.value.id], n.attr) and not isinstance(self.local[n.value.id], (str, int, float, list, dict, tuple, set)):
+            return getattr(self.local[n.value.id], n.attr)
+        if not isinstance(n.value, ast.Name):
+            try:
+                base = self.fold(n.value)
+            except NotConst:
+                raise
+            if hasattr(base, "__dict__") and n.attr in vars(base):
+                return getattr(base, n.attr)
+            raise NotConst(f"attribute {ast.unparse(n)}")
         if isinstance(n.value, ast.Name):
             k = (n.value.id, n.attr)
             mod = self.repo.module(self.module)
